@@ -230,8 +230,10 @@ def run(ctx):
     res.bounds.update({"search_list": "absent or 0-3 directories", "environment_list": "absent or 0-3 directories", "file_system_answers": "symbolic booleans"})
     res.stubs += ["Path/PathBuf as abstract values; is_absolute / is_file are free booleans per path; join is structural", "get_file_search_paths_from_env: absent or k directories, calls counted",
                   "bool::then_some, slice/Vec iteration"]
-    res.outside_claim += ["the real file system, fs::canonicalize, env::split_paths", "parts (b) and (c): include parsing/analysis lock-step and in-place inclusion (need the AST boundary)"]
+    res.outside_claim += ["the real file system, fs::canonicalize, env::split_paths", "include cycles (the code has none of the property's cases for them)"]
     res.assumptions += ["violations of this part are not replayed natively: the public entry points give no access to resolve_file_path with an oracle file system"]
+    from . import c18_includes
+    c18_includes.run_projects(ctx, res)
     res.exhaustive = not res.inconclusive
     return res
 
